@@ -148,9 +148,9 @@ def plan(tier, seed):
     if thorough:
         inst += [("u8", 2, 0, 4, 1), ("u8", 0, 1, 2, 2), ("u8", 1, 1, 4, 2), ("u16", 0, 0, 2, 2), ("u8", 2, 2, 4, 4)]
     txt = geom.PRELUDE
-    for (T, sx, sy, w, h) in inst:
+    for k, (T, sx, sy, w, h) in enumerate(inst):
         n = "k_c11_dec_%s_ss%d%d_%dx%d" % (T, sx, sy, w, h)
-        txt += geom.decode_harness(T, sx, sy, w, h, n, 8 if T == "u8" else 10, symbolic_content=True, pointwise=True)
+        txt += geom.decode_harness(T, sx, sy, w, h, n, 8 if T == "u8" else 10, symbolic_content=True, pointwise=True, ue=k % 2, ve=(k + 1) % 2)
         hs.append(dict(name=n, family="decode", timeout=3000 if thorough else 1500, mem_gb=20, unwind_rules=geom.decode_rules(w, h), replay=dec_replay,
                        dec=dict(T=T, w=w, h=h, ssx=sx, ssy=sy, bd=8 if T == "u8" else 10), covers=["accepted", "decoded"],
                        obligation="decode %s %dx%d subsampling (%d,%d): output pixel (x,y) is bit-identical to the kernels applied to Y(x,y), U/V(x>>ss_x,y>>ss_y) computed from the visible window only - hence independent of stride, origin, padding and padding contents; source unmodified" % (T, w, h, sx, sy),
